@@ -6,6 +6,10 @@ package main
 import (
 	"context"
 	"fmt"
+	"os"
+	"sort"
+	"strings"
+	"sync"
 	"time"
 
 	"go.opentelemetry.io/otel/attribute"
@@ -32,12 +36,31 @@ type driven interface {
 }
 
 type retryCfg struct {
-	Enabled  bool
-	Initial  time.Duration
-	MaxInt   time.Duration
-	MaxEl    time.Duration
-	Timeout  time.Duration
-	Compress bool
+	Enabled bool
+	Initial time.Duration
+	MaxInt  time.Duration
+	MaxEl   time.Duration
+}
+
+// XCfg is the exporter-option dimension the contract must be independent of: how many headers are
+// configured, compression, whether endpoint/headers/compression/timeout come from options or from the
+// OTEL_EXPORTER_OTLP_* environment, and whether a timeout is given explicitly.
+type XCfg struct {
+	Headers int    `json:"headers"` // 0, 1 or 3 configured headers
+	Gzip    bool   `json:"gzip"`
+	Env     bool   `json:"env"`     // configured through the environment instead of options
+	Timeout string `json:"timeout"` // "default" (no option) | "explicit"
+}
+
+// envMu serialises exporter construction when the process environment is used as configuration source.
+var envMu sync.Mutex
+
+func headersFor(id, n int) map[string]string {
+	h := map[string]string{}
+	for i := 1; i <= n; i++ {
+		h[fmt.Sprintf("x-verif-h%d", i)] = fmt.Sprintf("s%d-%d", id, i)
+	}
+	return h
 }
 
 var exporterKinds = []string{"tracehttp", "tracegrpc", "metrichttp", "metricgrpc", "loghttp", "loggrpc"}
@@ -166,94 +189,186 @@ func logsFor(id int) []sdklog.Record {
 	return c.recs
 }
 
-// newDriven builds the real exporter `kind` pointed at the loopback collector.
-func newDriven(kind string, id int, httpAddr, grpcAddr string, hdr map[string]string, rc retryCfg) (driven, error) {
+// optSet adapts one exporter package's option constructors.
+type optSet struct {
+	endpoint func(string)
+	insecure func()
+	headers  func(map[string]string)
+	gzip     func()
+	timeout  func(time.Duration)
+	retry    func(retryCfg)
+	build    func() (driven, error)
+}
+
+func optsFor(kind string, id int) (*optSet, error) {
 	ctx := context.Background()
 	switch kind {
 	case "tracehttp":
-		opts := []otlptracehttp.Option{
-			otlptracehttp.WithEndpoint(httpAddr), otlptracehttp.WithInsecure(), otlptracehttp.WithHeaders(hdr),
-			otlptracehttp.WithTimeout(rc.Timeout),
-			otlptracehttp.WithRetry(otlptracehttp.RetryConfig{Enabled: rc.Enabled, InitialInterval: rc.Initial, MaxInterval: rc.MaxInt, MaxElapsedTime: rc.MaxEl}),
-		}
-		if rc.Compress {
-			opts = append(opts, otlptracehttp.WithCompression(otlptracehttp.GzipCompression))
-		}
-		e, err := otlptracehttp.New(ctx, opts...)
-		if err != nil {
-			return nil, err
-		}
-		return &traceDriven{exp: e, spans: spansFor(id)}, nil
+		var o []otlptracehttp.Option
+		return &optSet{
+			endpoint: func(a string) { o = append(o, otlptracehttp.WithEndpoint(a)) },
+			insecure: func() { o = append(o, otlptracehttp.WithInsecure()) },
+			headers:  func(h map[string]string) { o = append(o, otlptracehttp.WithHeaders(h)) },
+			gzip:     func() { o = append(o, otlptracehttp.WithCompression(otlptracehttp.GzipCompression)) },
+			timeout:  func(d time.Duration) { o = append(o, otlptracehttp.WithTimeout(d)) },
+			retry: func(rc retryCfg) {
+				o = append(o, otlptracehttp.WithRetry(otlptracehttp.RetryConfig{Enabled: rc.Enabled, InitialInterval: rc.Initial, MaxInterval: rc.MaxInt, MaxElapsedTime: rc.MaxEl}))
+			},
+			build: func() (driven, error) {
+				e, err := otlptracehttp.New(ctx, o...)
+				if err != nil {
+					return nil, err
+				}
+				return &traceDriven{exp: e, spans: spansFor(id)}, nil
+			},
+		}, nil
 	case "tracegrpc":
-		opts := []otlptracegrpc.Option{
-			otlptracegrpc.WithEndpoint(grpcAddr), otlptracegrpc.WithInsecure(), otlptracegrpc.WithHeaders(hdr),
-			otlptracegrpc.WithTimeout(rc.Timeout),
-			otlptracegrpc.WithRetry(otlptracegrpc.RetryConfig{Enabled: rc.Enabled, InitialInterval: rc.Initial, MaxInterval: rc.MaxInt, MaxElapsedTime: rc.MaxEl}),
-		}
-		if rc.Compress {
-			opts = append(opts, otlptracegrpc.WithCompressor("gzip"))
-		}
-		e, err := otlptracegrpc.New(ctx, opts...)
-		if err != nil {
-			return nil, err
-		}
-		return &traceDriven{exp: e, spans: spansFor(id)}, nil
+		var o []otlptracegrpc.Option
+		return &optSet{
+			endpoint: func(a string) { o = append(o, otlptracegrpc.WithEndpoint(a)) },
+			insecure: func() { o = append(o, otlptracegrpc.WithInsecure()) },
+			headers:  func(h map[string]string) { o = append(o, otlptracegrpc.WithHeaders(h)) },
+			gzip:     func() { o = append(o, otlptracegrpc.WithCompressor("gzip")) },
+			timeout:  func(d time.Duration) { o = append(o, otlptracegrpc.WithTimeout(d)) },
+			retry: func(rc retryCfg) {
+				o = append(o, otlptracegrpc.WithRetry(otlptracegrpc.RetryConfig{Enabled: rc.Enabled, InitialInterval: rc.Initial, MaxInterval: rc.MaxInt, MaxElapsedTime: rc.MaxEl}))
+			},
+			build: func() (driven, error) {
+				e, err := otlptracegrpc.New(ctx, o...)
+				if err != nil {
+					return nil, err
+				}
+				return &traceDriven{exp: e, spans: spansFor(id)}, nil
+			},
+		}, nil
 	case "metrichttp":
-		opts := []otlpmetrichttp.Option{
-			otlpmetrichttp.WithEndpoint(httpAddr), otlpmetrichttp.WithInsecure(), otlpmetrichttp.WithHeaders(hdr),
-			otlpmetrichttp.WithTimeout(rc.Timeout),
-			otlpmetrichttp.WithRetry(otlpmetrichttp.RetryConfig{Enabled: rc.Enabled, InitialInterval: rc.Initial, MaxInterval: rc.MaxInt, MaxElapsedTime: rc.MaxEl}),
-		}
-		if rc.Compress {
-			opts = append(opts, otlpmetrichttp.WithCompression(otlpmetrichttp.GzipCompression))
-		}
-		e, err := otlpmetrichttp.New(ctx, opts...)
-		if err != nil {
-			return nil, err
-		}
-		return &metricDriven{exp: e, rm: metricsFor(id)}, nil
+		var o []otlpmetrichttp.Option
+		return &optSet{
+			endpoint: func(a string) { o = append(o, otlpmetrichttp.WithEndpoint(a)) },
+			insecure: func() { o = append(o, otlpmetrichttp.WithInsecure()) },
+			headers:  func(h map[string]string) { o = append(o, otlpmetrichttp.WithHeaders(h)) },
+			gzip:     func() { o = append(o, otlpmetrichttp.WithCompression(otlpmetrichttp.GzipCompression)) },
+			timeout:  func(d time.Duration) { o = append(o, otlpmetrichttp.WithTimeout(d)) },
+			retry: func(rc retryCfg) {
+				o = append(o, otlpmetrichttp.WithRetry(otlpmetrichttp.RetryConfig{Enabled: rc.Enabled, InitialInterval: rc.Initial, MaxInterval: rc.MaxInt, MaxElapsedTime: rc.MaxEl}))
+			},
+			build: func() (driven, error) {
+				e, err := otlpmetrichttp.New(ctx, o...)
+				if err != nil {
+					return nil, err
+				}
+				return &metricDriven{exp: e, rm: metricsFor(id)}, nil
+			},
+		}, nil
 	case "metricgrpc":
-		opts := []otlpmetricgrpc.Option{
-			otlpmetricgrpc.WithEndpoint(grpcAddr), otlpmetricgrpc.WithInsecure(), otlpmetricgrpc.WithHeaders(hdr),
-			otlpmetricgrpc.WithTimeout(rc.Timeout),
-			otlpmetricgrpc.WithRetry(otlpmetricgrpc.RetryConfig{Enabled: rc.Enabled, InitialInterval: rc.Initial, MaxInterval: rc.MaxInt, MaxElapsedTime: rc.MaxEl}),
-		}
-		if rc.Compress {
-			opts = append(opts, otlpmetricgrpc.WithCompressor("gzip"))
-		}
-		e, err := otlpmetricgrpc.New(ctx, opts...)
-		if err != nil {
-			return nil, err
-		}
-		return &metricDriven{exp: e, rm: metricsFor(id)}, nil
+		var o []otlpmetricgrpc.Option
+		return &optSet{
+			endpoint: func(a string) { o = append(o, otlpmetricgrpc.WithEndpoint(a)) },
+			insecure: func() { o = append(o, otlpmetricgrpc.WithInsecure()) },
+			headers:  func(h map[string]string) { o = append(o, otlpmetricgrpc.WithHeaders(h)) },
+			gzip:     func() { o = append(o, otlpmetricgrpc.WithCompressor("gzip")) },
+			timeout:  func(d time.Duration) { o = append(o, otlpmetricgrpc.WithTimeout(d)) },
+			retry: func(rc retryCfg) {
+				o = append(o, otlpmetricgrpc.WithRetry(otlpmetricgrpc.RetryConfig{Enabled: rc.Enabled, InitialInterval: rc.Initial, MaxInterval: rc.MaxInt, MaxElapsedTime: rc.MaxEl}))
+			},
+			build: func() (driven, error) {
+				e, err := otlpmetricgrpc.New(ctx, o...)
+				if err != nil {
+					return nil, err
+				}
+				return &metricDriven{exp: e, rm: metricsFor(id)}, nil
+			},
+		}, nil
 	case "loghttp":
-		opts := []otlploghttp.Option{
-			otlploghttp.WithEndpoint(httpAddr), otlploghttp.WithInsecure(), otlploghttp.WithHeaders(hdr),
-			otlploghttp.WithTimeout(rc.Timeout),
-			otlploghttp.WithRetry(otlploghttp.RetryConfig{Enabled: rc.Enabled, InitialInterval: rc.Initial, MaxInterval: rc.MaxInt, MaxElapsedTime: rc.MaxEl}),
-		}
-		if rc.Compress {
-			opts = append(opts, otlploghttp.WithCompression(otlploghttp.GzipCompression))
-		}
-		e, err := otlploghttp.New(ctx, opts...)
-		if err != nil {
-			return nil, err
-		}
-		return &logDriven{exp: e, recs: logsFor(id)}, nil
+		var o []otlploghttp.Option
+		return &optSet{
+			endpoint: func(a string) { o = append(o, otlploghttp.WithEndpoint(a)) },
+			insecure: func() { o = append(o, otlploghttp.WithInsecure()) },
+			headers:  func(h map[string]string) { o = append(o, otlploghttp.WithHeaders(h)) },
+			gzip:     func() { o = append(o, otlploghttp.WithCompression(otlploghttp.GzipCompression)) },
+			timeout:  func(d time.Duration) { o = append(o, otlploghttp.WithTimeout(d)) },
+			retry: func(rc retryCfg) {
+				o = append(o, otlploghttp.WithRetry(otlploghttp.RetryConfig{Enabled: rc.Enabled, InitialInterval: rc.Initial, MaxInterval: rc.MaxInt, MaxElapsedTime: rc.MaxEl}))
+			},
+			build: func() (driven, error) {
+				e, err := otlploghttp.New(ctx, o...)
+				if err != nil {
+					return nil, err
+				}
+				return &logDriven{exp: e, recs: logsFor(id)}, nil
+			},
+		}, nil
 	case "loggrpc":
-		opts := []otlploggrpc.Option{
-			otlploggrpc.WithEndpoint(grpcAddr), otlploggrpc.WithInsecure(), otlploggrpc.WithHeaders(hdr),
-			otlploggrpc.WithTimeout(rc.Timeout),
-			otlploggrpc.WithRetry(otlploggrpc.RetryConfig{Enabled: rc.Enabled, InitialInterval: rc.Initial, MaxInterval: rc.MaxInt, MaxElapsedTime: rc.MaxEl}),
-		}
-		if rc.Compress {
-			opts = append(opts, otlploggrpc.WithCompressor("gzip"))
-		}
-		e, err := otlploggrpc.New(ctx, opts...)
-		if err != nil {
-			return nil, err
-		}
-		return &logDriven{exp: e, recs: logsFor(id)}, nil
+		var o []otlploggrpc.Option
+		return &optSet{
+			endpoint: func(a string) { o = append(o, otlploggrpc.WithEndpoint(a)) },
+			insecure: func() { o = append(o, otlploggrpc.WithInsecure()) },
+			headers:  func(h map[string]string) { o = append(o, otlploggrpc.WithHeaders(h)) },
+			gzip:     func() { o = append(o, otlploggrpc.WithCompressor("gzip")) },
+			timeout:  func(d time.Duration) { o = append(o, otlploggrpc.WithTimeout(d)) },
+			retry: func(rc retryCfg) {
+				o = append(o, otlploggrpc.WithRetry(otlploggrpc.RetryConfig{Enabled: rc.Enabled, InitialInterval: rc.Initial, MaxInterval: rc.MaxInt, MaxElapsedTime: rc.MaxEl}))
+			},
+			build: func() (driven, error) {
+				e, err := otlploggrpc.New(ctx, o...)
+				if err != nil {
+					return nil, err
+				}
+				return &logDriven{exp: e, recs: logsFor(id)}, nil
+			},
+		}, nil
 	}
 	return nil, fmt.Errorf("unknown exporter kind %q", kind)
+}
+
+var envKeys = []string{"OTEL_EXPORTER_OTLP_ENDPOINT", "OTEL_EXPORTER_OTLP_HEADERS", "OTEL_EXPORTER_OTLP_COMPRESSION", "OTEL_EXPORTER_OTLP_TIMEOUT"}
+
+// newDriven builds the real exporter `kind` pointed at addr (the scenario's own loopback listener) with the
+// option set x; timeout 0 = the exporter's default. With x.Env everything except the retry configuration (which
+// has no environment variable) is configured through OTEL_EXPORTER_OTLP_*.
+func newDriven(kind string, id int, addr string, x XCfg, hdr map[string]string, timeout time.Duration, rc retryCfg) (driven, error) {
+	o, err := optsFor(kind, id)
+	if err != nil {
+		return nil, err
+	}
+	o.retry(rc)
+	// every construction reads the process environment, so all of them are serialised: an exporter configured by
+	// options must not see the variables of a concurrent environment-configured scenario
+	envMu.Lock()
+	defer envMu.Unlock()
+	if !x.Env {
+		o.endpoint(addr)
+		o.insecure()
+		if len(hdr) > 0 {
+			o.headers(hdr)
+		}
+		if x.Gzip {
+			o.gzip()
+		}
+		if timeout > 0 {
+			o.timeout(timeout)
+		}
+		return o.build()
+	}
+	defer func() {
+		for _, k := range envKeys {
+			os.Unsetenv(k)
+		}
+	}()
+	os.Setenv("OTEL_EXPORTER_OTLP_ENDPOINT", "http://"+addr) // the http scheme implies an insecure connection
+	if len(hdr) > 0 {
+		var kv []string
+		for k, v := range hdr {
+			kv = append(kv, k+"="+v)
+		}
+		sort.Strings(kv)
+		os.Setenv("OTEL_EXPORTER_OTLP_HEADERS", strings.Join(kv, ","))
+	}
+	if x.Gzip {
+		os.Setenv("OTEL_EXPORTER_OTLP_COMPRESSION", "gzip")
+	}
+	if timeout > 0 {
+		os.Setenv("OTEL_EXPORTER_OTLP_TIMEOUT", fmt.Sprintf("%d", timeout.Milliseconds()))
+	}
+	return o.build()
 }
